@@ -234,8 +234,9 @@ Run(prog, wrap, adv, base, seed) ==
         ELSE LET ea == Adv(env, adv, base, 2 + e) IN
              IF wrap = "pf2"
              THEN LET c == CopyT(w.tm, TRUE, ea, 1) IN     \* frozen copy per epoch
-                  IF ~Indexable(c.tm)
+                  IF ~Indexable(c.tm) /\ LenT(c.tm) > 0     \* input_dataset[index] raises
                   THEN RunOut(orders, "TypeError", BoolStr(OrderedT(w.tm)), c.env.log)
+                  ELSE IF ~Indexable(c.tm) THEN Go(e + 1, c.env, Append(orders, <<>>))
                   ELSE LET r == IterT(c.tm, c.env) IN Go(e + 1, r.env, Append(orders, r.out))
              ELSE LET r == IterT(w.tm, ea) IN Go(e + 1, r.env, Append(orders, r.out))
   IN IF wrap = "pf2" /\ ~LenDefined(b.tm)
@@ -278,6 +279,11 @@ WrapClause(s, o) ==
          ELSE IF o.W.exc # "none" \/ ~AllSame(o.W.orders) THEN "FrozenFixed" ELSE ""
     [] OTHER -> ""
 
+RECURSIVE AliasedReshuffle(_)
+AliasedReshuffle(p) ==
+  IF p.op = "src" THEN FALSE
+  ELSE (p.op = "concatself" /\ HasOp(p.in, {"reshuffle"})) \/ AliasedReshuffle(p.in)
+
 S8Clause(wc) == CASE wc = "CopyAgrees"     -> "S8:copy-drops-rng:CopyAgrees"
                   [] wc = "PrefetchAgrees" -> "S8:copy-drops-rng:PrefetchAgrees"
                   [] OTHER                 -> "S8:copy-drops-rng:FrozenFixed"
@@ -296,6 +302,11 @@ V_C13(s, o) ==
        \* drew from the GLOBAL generator although every stage was given its own
        THEN IF UsesGlobal(o.W.log) /\ ~UsesGlobal(o.A.log) /\ HasOp(s.prog, {"reshuffle", "local"})
             THEN <<"viol", S8Clause(wc)>>
+            \* a second, independent way to break CopyAgrees (found by TLC on the
+            \* repaired model): ds.concatenate(ds) holds ONE ReShuffleDataset twice,
+            \* its copy holds TWO objects with separate in-place permutations
+            ELSE IF wc = "CopyAgrees" /\ AliasedReshuffle(s.prog)
+            THEN <<"viol", "CopyAgrees:copy-unshares-reshuffle-object">>
             ELSE <<"viol", wc>>
   ELSE IF SrcLen(s.prog) <= 1 THEN <<"trivial", "fewer-than-two-examples">>
   ELSE <<"ok", "">>
@@ -303,7 +314,18 @@ V_C13(s, o) ==
 \* conformance of a real observation with the model: same refusals, same
 \* `ordered`, the same generators served the same calls in the same order
 \* (the ORDERS themselves depend on numpy's streams, not modelled)
-Skel(r) == [exc |-> r.exc, ord |-> r.ord, log |-> r.log, epochs |-> Len(r.orders)]
+\* streams are independent: the calls are compared per generator (how the calls
+\* of DIFFERENT generators interleave depends on how lazily a stage pulls)
+CallsOf(log, g) == SelectSeq(log, LAMBDA c : c.g = g)
+\* ... and of the global generator only the bag of calls: when S8 makes two
+\* stages fall back to it, their calls interleave as lazily as the upper stage
+\* pulls, which IterT (input first) does not model
+BagOf(log) ==
+  LET ks == {<<log[j].rc, log[j].m>> : j \in 1..Len(log)}
+  IN [k \in ks |-> Cardinality({j \in 1..Len(log) : <<log[j].rc, log[j].m>> = k})]
+Skel(r) == [refused |-> r.exc # "none", ord |-> r.ord, epochs |-> Len(r.orders),
+            log |-> [g \in 1..MaxGen |-> CallsOf(r.log, g)],
+            glob |-> BagOf(CallsOf(r.log, 0))]
 ConformsC13(o, m) ==
   IF Skel(o.A) # Skel(m.A) THEN "run-A-differs"
   ELSE IF Skel(o.A2) # Skel(m.A2) THEN "run-A2-differs"
@@ -395,7 +417,10 @@ Init == /\ phase = 0
         /\ scn \in {Scenario(p, "none", {}, 0) : p \in Programs}
 Next == /\ phase = 0
         /\ phase' = 1
-        /\ \E w \in Wraps, a \in AdvSets, s \in SeedSet : scn' = Scenario(scn.prog, w, a, s)
+        \* (with fewer than two examples every order agrees: one adversary suffices)
+        /\ \E w \in Wraps, s \in SeedSet,
+              a \in IF SrcLen(scn.prog) <= 1 THEN {{}} ELSE AdvSets :
+              scn' = Scenario(scn.prog, w, a, s)
 Spec == Init /\ [][Next]_<<scn, phase>>
 
 \* spec -> code: the scenario with the model's observation skeleton and verdict
@@ -411,5 +436,8 @@ DesignC13 == phase = 1 => V_C13(scn, ModelObs(scn))[1] # "viol"
 DesignC13ModuloS8 ==
   phase = 1 => LET v == V_C13(scn, ModelObs(scn)) IN
                v[1] = "viol" => v[2] \in S8Clauses
-DesignParams == \A cls \in Classes : Kept(cls) = ClassParams[cls]
+DesignParams == phase >= 0 /\ \A cls \in Classes : Kept(cls) = ClassParams[cls]
+DesignC13ModuloKnown ==     \* ... and modulo the aliasing finding
+  phase = 1 => LET v == V_C13(scn, ModelObs(scn)) IN
+               v[1] = "viol" => v[2] \in S8Clauses \cup {"CopyAgrees:copy-unshares-reshuffle-object"}
 =============================================================================
